@@ -37,7 +37,7 @@ RULE = ("structured 1-d: model families (HEM, Merton, VG, CGMY in all five activ
         "grid constructors x h in {0.2,0.1,0.05,0.02} x 0..3 refinements, chain built by MarkovChainProcess with INVERSION or "
         "BINARYSEARCHTREEADAPTED1D; synthetic exact: random dyadic axes x piecewise-constant dyadic densities (zoo.TableMeasure), "
         "masses computed by the model itself and compared exactly; copula: margins drawn from the families x Clayton/independent/"
-        "dependent x fixed-size, geometric-with-bounds and credit grids of 5..9 points per axis x d in {2,3} x 0..1 refinements. "
+        "dependent x fixed-size, geometric-with-bounds and credit grids of 5..9 points per axis, and raw CTMCGrids whose axes have pairwise different lengths, x d in {2,3} x 0..1 refinements. "
         "non-trivial = the grid was built, is well formed (C13) and has >= 5 points per axis; distinct = distinct "
         "(model, parameters, constructor arguments, refinements, method)")
 NOT_PROVED = [
@@ -374,9 +374,16 @@ def copula_case(rng, dim):
     cop_kw = {}
     if cop == "clayton":
         cop_kw = dict(theta=rng.choice([0.3, 0.7, 1.0, 2.5]), eta=rng.choice([0.1, 0.3, 0.5, 0.9]))
-    kind = rng.choice(["fixed", "fixed", "geometric_bounds", "credit_nd"])
+    kind = rng.choice(["fixed", "fixed", "geometric_bounds", "credit_nd", "raw_unequal"])
     h = rng.choice([0.2, 0.1, 0.05])
-    if kind == "fixed":
+    if kind == "raw_unequal":
+        # raw CTMCGrid, common origin index, every axis its own length and its own (non-uniform) steps
+        o = rng.randint(1, 3)
+        side = lambda m: list(itertools.accumulate([h] + [h * rng.choice([1.0, 1.5, 2.0]) for _ in range(m - 1)]))
+        mk = lambda nr: [-x for x in side(o)][::-1] + [0.0] + side(nr)
+        nrs = rng.sample(range(1, 6 if dim == 2 else 4), dim)          # pairwise different right sides
+        gd = dict(kind=kind, h=h, o=o, dim=dim, axes=[mk(nr) for nr in nrs])
+    elif kind == "fixed":
         gd = dict(kind=kind, h=h, nb=rng.choice([5, 7, 9] if dim == 2 else [5, 7]), dim=dim)
     elif kind == "geometric_bounds":
         gd = dict(kind=kind, h=h, nb=rng.choice([2, 3, 4] if dim == 2 else [2, 3]), dim=dim,
@@ -392,7 +399,9 @@ def build_copula(d):
     margins = [zoo.make_levy(f, p) for f, p in d["margins"]]
     cm = zoo.make_copula_model(margins, zoo.make_copula(d["copula"], **d["copula_kw"]))
     gd = d["grid"]
-    if gd["kind"] == "credit_nd":
+    if gd["kind"] == "raw_unequal":
+        g = zoo.CTMCGrid(h=gd["h"], origin_coordinate=gd["o"], axes=[np.array(a) for a in gd["axes"]])
+    elif gd["kind"] == "credit_nd":
         g = zoo.CTMCCredit(h=gd["h"], level_a=list(gd["a"]), model=cm, symmetric_grid=gd["sym"])
     else:
         g = grid_from_desc(None, gd)
@@ -401,7 +410,7 @@ def build_copula(d):
     return cm, g
 
 
-def copula_cell_oracle(ctx, d, cls, margins, cells, masses, intensity, o, n, ncells):
+def copula_cell_oracle(ctx, d, cls, margins, cells, masses, intensity, o, ns, ncells):
     """independent computation of the joint mass of single cells of a 2-d copula chain (none of it goes through
     LevyCopulaModel.mass): independent components -> the margin's own integrate on axis cells, 0 elsewhere; complete
     dependence -> overlap of the margins' tail-integral intervals; Clayton -> dblquad of the Lévy density
@@ -411,8 +420,8 @@ def copula_cell_oracle(ctx, d, cls, margins, cells, masses, intensity, o, n, nce
     tail = lambda i, x: nus[i].integrate(x, np.inf) if x > 0 else nus[i].integrate(-np.inf, x)
     tol = lambda e: 1e-7 * abs(e) + 1e-11 * max(1.0, abs(intensity))
     cop = d["copula"]
-    off = [(i, j) for i in range(n) for j in range(n) if i != o and j != o]
-    on = [(i, o) for i in range(n) if i != o] + [(o, j) for j in range(n) if j != o]
+    off = [(i, j) for i in range(ns[0]) for j in range(ns[1]) if i != o and j != o]
+    on = [(i, o) for i in range(ns[0]) if i != o] + [(o, j) for j in range(ns[1]) if j != o]
     todo = []
     if cop == "independent":
         todo = [(cs, "axis") for cs in on] + [(cs, "zero") for cs in rng.sample(off, min(len(off), ncells))]
@@ -469,10 +478,12 @@ def _copula_probe(ctx, d, cls, corr=True):
         return
     axes = zoo.axis_list(g)
     o = int(list(g.origin_coordinate)[0])
-    if not (all(axis_ok(ax, o) for ax in axes) and len({len(ax) for ax in axes}) == 1):
+    if not all(axis_ok(ax, o) for ax in axes):
         ctx.branches[f"c01.skipped_not_wellformed:copula:{d['grid']['kind']}"] += 1
         return
-    n = len(axes[0])
+    ns = [len(ax) for ax in axes]           # axes may have different lengths (right_point clamps per axis since 56f1018)
+    if len(set(ns)) > 1:
+        ctx.branches["c01.copula:unequal_axis_lengths"] += 1
     try:
         # the chain, through the public constructor when that is cheap (finite variation: no nquad pool in the ctor)
         if cm.jump_of_finite_variation():
@@ -486,7 +497,7 @@ def _copula_probe(ctx, d, cls, corr=True):
             bst = BinarySearchTreeAdapted(model=model_t, grid=g)
             ctx.branches["c01.copula:via_samplingfactory"] += 1
         inv = create_sampling_inversion_method(g, model_t, intensity, True)
-        states = list(itertools.product(range(n), repeat=dim))
+        states = list(itertools.product(*[range(m) for m in ns]))
         origin = tuple([o] * dim)
         cells, masses = {}, {}
         for cs in states:
@@ -502,9 +513,10 @@ def _copula_probe(ctx, d, cls, corr=True):
         ctx.count("c01.copula", d, nontrivial=False, branch="raises")
         ctx.fail("oracle", "c01.chain.raises", d, {"exception": repr(e)[:500]}, cls=cls)
         return
-    ctx.count("c01.copula", d, nontrivial=n >= 5, branch=f"{d['copula']}:d{dim}:{d['grid']['kind']}")
+    ctx.count("c01.copula", d, nontrivial=min(ns) >= 5, branch=f"{d['copula']}:d{dim}:{d['grid']['kind']}")
     # ---- S
     for i in range(dim):
+        n = ns[i]
         lo = [cells[tuple(c if j == i else o for j in range(dim))][0][i] for c in range(n)]
         hi = [cells[tuple(c if j == i else o for j in range(dim))][1][i] for c in range(n)]
         ax = axes[i]
@@ -534,11 +546,11 @@ def _copula_probe(ctx, d, cls, corr=True):
         return
     # a strip of cells away from the origin carries the joint mass of its hull (grid-sum on the implementation)
     if dim == 2:
-        for i in range(n):
+        for i in range(ns[0]):
             if i == o:
                 continue
-            strip = math.fsum(masses[(i, j)] for j in range(n))
-            a, b = cells[(i, 0)], cells[(i, n - 1)]
+            strip = math.fsum(masses[(i, j)] for j in range(ns[1]))
+            a, b = cells[(i, 0)], cells[(i, ns[1] - 1)]
             hull = model_t.mass((a[0][0], a[0][1]), (a[1][0], b[1][1]))
             if not abs(strip - hull) <= 1e-10 * max(abs(intensity), 1e-300):
                 ctx.fail("oracle", "c01.strip_mass", d, {"column": i, "sum_of_cells": strip, "mass_of_strip": hull}, cls=cls)
@@ -564,7 +576,7 @@ def _copula_probe(ctx, d, cls, corr=True):
                     ctx.fail("oracle", "c01.bucket_mass", d, {"bucket": j, "what": "axis table does not add up to the bucket probability",
                                                             "table_total": float(cum[-1]), "bucket_probability": float(p)}, cls=cls)
                     return
-    if dim == 2 and not copula_cell_oracle(ctx, d, cls, cm.models, cells, masses, intensity, o, n, ctx.n(3, 12)):
+    if dim == 2 and not copula_cell_oracle(ctx, d, cls, cm.models, cells, masses, intensity, o, ns, ctx.n(3, 12)):
         return
     if not corr:
         return
@@ -648,43 +660,51 @@ def guarded(ctx, d, cls, fn, *a, **k):
         ctx.fail("oracle", "c01.chain.raises", d, {"exception": repr(e)[:500], "where": where}, cls=cls)
 
 
-# ------------------------------------------------------------------------------------------------- edge: unequal axis lengths
+# ------------------------------------------------------------------------------------------------- raw grids, unequal axis lengths
 def unequal_axes_probe(ctx, d):
-    """raw CTMCGrid with axes of different lengths (same origin index): CoordinateND.right_point clamps every axis with
-    len(axes[0]) (spatial.py:93, marked FIXME) -- the Lean witness `unequal_axes_break_cells` replayed on the implementation"""
+    """raw CTMCGrid whose axes have different lengths (same origin index, either order, d = 2 or 3): every state must lie
+    in its own cell and the cells of every axis must tile it (CoordinateND.right_point clamps each coordinate with the
+    length of its own axis since /repo 56f1018; before, with len(axes[0]) -- Lean witness `unequal_axes_break_cells`);
+    plus the correspondence with the model's per-axis `cellHi`"""
+    cls = dict(stream="edge", unequal_axis_lengths=True)
+    ctx.count("c01.nd.unequal_axes", d, nontrivial=True, branch=f"d{len(d['axes'])}")
+    guarded(ctx, d, cls, _unequal_axes_probe, ctx, d, cls)
+
+
+def _unequal_axes_probe(ctx, d, cls):
     axes = [np.array(a) for a in d["axes"]]
     o = d["o"]
     g = zoo.CTMCGrid(h=d["h"], origin_coordinate=o, axes=axes)
-    cls = dict(stream="edge", unequal_axis_lengths=True)
-    ctx.count("c01.nd.unequal_axes", d, nontrivial=True)
     out = ctx.lean(f"cellsNd {wll(d['axes'])} {o}").split(" ")
     m_lo, m_hi = rdll(out[0]), rdll(out[1])
-    bad, mirrors = None, True
     for i, ax in enumerate(d["axes"]):
+        lo, hi = [], []
         for c in range(len(ax)):
-            cs = tuple(c if j == i else o for j in range(len(axes)))
-            pt = Coordinates(cs)
-            try:
-                lo = float(g.middle(g.left_point(pt), g[pt])[i])
-                hi = float(g.middle(g[pt], g.right_point(pt))[i])
-            except IndexError as e:          # first axis longer than another one: the clamp runs past the shorter axis
-                if bad is None:
-                    bad = {"axis": i, "k": c, "exception": repr(e)}
-                mirrors = mirrors and c + 1 >= len(ax)
-                continue
-            mirrors = mirrors and fr(lo) == m_lo[i][c] and fr(hi) == m_hi[i][c]
-            if not (lo <= ax[c] <= hi) and bad is None:
-                bad = {"axis": i, "k": c, "cellLo": lo, "x": ax[c], "cellHi": hi}
-    if bad:
-        ctx.fail("oracle", "c01.nd.unequal_axes", d, bad, cls=cls, mirrors_model=mirrors)
+            pt = Coordinates(tuple(c if j == i else o for j in range(len(axes))))
+            lo.append(float(g.middle(g.left_point(pt), g[pt])[i]))
+            hi.append(float(g.middle(g[pt], g.right_point(pt))[i]))
+        for c in range(len(ax)):
+            if not (lo[c] <= ax[c] <= hi[c]):
+                ctx.fail("oracle", "c01.nd.unequal_axes", d, {"what": "state outside its own cell", "axis": i, "k": c,
+                                                            "cellLo": lo[c], "x": ax[c], "cellHi": hi[c]}, cls=cls)
+                return
+        if any(hi[c] != lo[c + 1] for c in range(len(ax) - 1)) or lo[0] != ax[0] or hi[-1] != ax[-1]:
+            ctx.fail("oracle", "c01.nd.unequal_axes", d, {"what": "cells do not tile the axis", "axis": i, "lo": lo, "hi": hi,
+                                                        "axis_values": ax}, cls=cls)
+            return
+        if not (len(m_lo[i]) == len(ax) and all(fr(a) == b for a, b in zip(lo, m_lo[i])) and all(fr(a) == b for a, b in zip(hi, m_hi[i]))):
+            ctx.fail("corr", "c01.cells.model", d, {"name": "Drivers/C01 cellsNd vs grid.middle(left_point/right_point), unequal axes",
+                                                  "axis": i, "impl_hi": hi, "model_hi": [str(x) for x in m_hi[i]]}, cls=cls)
+            return
 
 
 def unequal_axes_case(rng):
-    h = rng.choice([1.0, 0.5])
+    h = rng.choice([1.0, 0.5, 0.25])
     o = rng.randint(1, 3)
+    dim = rng.choice([2, 2, 3])
     mk = lambda nr: [-h * (o - i) for i in range(o)] + [0.0] + [h * (i + 1) for i in range(nr)]
-    n1 = rng.randint(1, 3)
-    return dict(stream="edge_unequal", h=h, o=o, axes=[mk(n1), mk(n1 + rng.randint(1, 3))])
+    nrs = rng.sample(range(1, 7), dim)                                  # pairwise different, in either order
+    return dict(stream="edge_unequal", h=h, o=o, axes=[mk(nr) for nr in nrs])
 
 
 # ------------------------------------------------------------------------------------------------------------ entry points
@@ -699,7 +719,8 @@ def run(ctx, corr=True):
         copula_probe(ctx, copula_case(rng, 3), corr=corr)
     if corr:
         unequal_axes_probe(ctx, dict(stream="edge_unequal", h=1.0, o=1, axes=[[-1.0, 0.0, 1.0], [-1.0, 0.0, 1.0, 2.0, 3.0]]))
-        for _ in range(ctx.n(2, 10)):
+        unequal_axes_probe(ctx, dict(stream="edge_unequal", h=1.0, o=1, axes=[[-1.0, 0.0, 1.0, 2.0, 3.0], [-1.0, 0.0, 1.0]]))
+        for _ in range(ctx.n(6, 60)):
             unequal_axes_probe(ctx, unequal_axes_case(rng))
 
 
